@@ -29,10 +29,9 @@ Definition should_add (c : tcfg) (now : N) (h : list entry) : bool :=
   | Some mi => match latest h with None => true | Some l => mi <=? (now - ts l) end
   end.
 
-(* the age cutoff: current_time.saturating_sub(max_age_days * SECONDS_PER_DAY); second component =
-   the u64 product overflowed *)
-Definition cutoff (days now : N) : N * bool :=
-  let (p, ov) := mul64 days SECONDS_PER_DAY in (now - p, ov).
+(* the age cutoff: current_time.saturating_sub(max_age_days.saturating_mul(SECONDS_PER_DAY)); second
+   component = a u64 product overflowed (never, since the D17 repair) *)
+Definition cutoff (days now : N) : N * bool := (now - sat_mul64 days SECONDS_PER_DAY, false).
 
 (* apply_retention: age filter by retain (any position), then count by draining the front *)
 Definition drop_front (m : N) (h : list entry) : list entry :=
@@ -147,14 +146,16 @@ Definition restricted_run (fs : list pfile) : bool :=
 Definition k16_filter_mismatch (fs : list pfile) : bool :=
   existsb (fun f => pf_counted f && negb (Bool.eqb (should_process f) (pf_ext_ok f))) fs.
 
-(* auto-snapshot decision of `check` (runner.rs step 11): exit code 0, option enabled *)
-Definition auto_snapshot_totals (enabled passed : bool) (fs : list pfile) : option totals :=
-  if enabled && passed then Some (check_totals fs) else None.
+(* auto-snapshot decision of `check` (runner.rs step 11): exit code 0, option enabled, and (D16
+   repair) not a partial run *)
+Definition auto_snapshot_totals (enabled passed partial : bool) (fs : list pfile) : option totals :=
+  if enabled && passed && negb partial then Some (check_totals fs) else None.
 
 (* ---------------------------------------------------------------- command level *)
 Inductive cmd :=
 | CSnapshot (force dry_run : bool)            (* snapshot [--force] [--dry-run] *)
-| CCheck (auto passed : bool)                 (* check; auto = trend.auto_snapshot_on_check *)
+| CCheck (auto passed partial : bool)         (* check; auto = trend.auto_snapshot_on_check; partial =
+                                                 --files / --diff / --staged given or fail-fast tripped *)
 | CStats.                                      (* stats summary | files | trend | history | report *)
 
 (* effect of one command on the history; second component: u64 overflow met *)
@@ -164,8 +165,8 @@ Definition step (c : tcfg) (k : cmd) (now : N) (fs : list pfile) (tag : N) (h : 
       if dry then (h, false) else
       match snapshot_op c force now (snapshot_totals fs) tag h with
       | Skipped => (h, false) | Saved h' ov => (h', ov) end
-  | CCheck auto passed =>
-      match auto_snapshot_totals auto passed fs with
+  | CCheck auto passed partial =>
+      match auto_snapshot_totals auto passed partial fs with
       | None => (h, false)
       | Some t => match snapshot_op c false now t tag h with
                   | Skipped => (h, false) | Saved h' ov => (h', ov) end
